@@ -7,6 +7,7 @@ import H264.RbspInit
 import H264.DecodeNal
 import H264.Properties.C09
 import H264.Overflow
+import H264.History
 /-! # C03 — No input can panic, overflow, hang or over-allocate any parsing entry point
 
 What the model can carry, and what it cannot:
@@ -142,5 +143,16 @@ theorem time_offset_no_overflow (len raw : Nat) (hl : 1 ≤ len ∧ len ≤ 31) 
   Overflow.timeOffsetRust_eq len raw hl hr
 /-- not vacuous: −1 in a 5-bit field -/
 example : Overflow.timeOffsetRust 5 31 = -1 := by decide
+
+/-! ### "any context built from previously accepted parameter sets": the arithmetic the PPS and slice parsers do on
+SPS fields taken from the context stays in range for every reachable context -/
+theorem reachable_context_qp_bound_no_overflow (ops : List History.Op) (i : Nat) (v : Sps.Sps)
+    (h : Ctx.get (History.run ops).sps i = some v) :
+    Overflow.FitsU8 (6 * (v.chromaInfo.bitDepthLumaMinus8 : Int)) ∧
+    Overflow.FitsI32 (-(26 + 6 * (v.chromaInfo.bitDepthLumaMinus8 : Int))) := History.reachable_qp_bound_fits ops i v h
+theorem reachable_context_widths (ops : List History.Op) (i : Nat) (v : Sps.Sps)
+    (h : Ctx.get (History.run ops).sps i = some v) :
+    v.spsId = i ∧ i ≤ 31 ∧ v.log2MaxFrameNumMinus4 + 4 ≤ 16 ∧ v.picWidthInMbsMinus1 + 1 < 2^32 ∧
+    v.picHeightInMapUnitsMinus1 + 1 < 2^32 := History.reachable_sps_widths ops i v h
 
 end C03
